@@ -1,6 +1,6 @@
 (* C05 -- Decoded payloads are element-wise, index-consistent and within range.  Statements only. *)
 From Coq Require Import ZArith String Ascii List Bool PrimFloat.
-From RV Require Import Py PyStr PyFloat GenTables M_Codecs M_Payload M_Header P_Payload.
+From RV Require Import Py PyStr PyFloat GenTables M_Codecs M_Payload M_Header P_Payload M_ModeCmd P_ModeDecode.
 Import ListNotations.
 Open Scope Z_scope.
 
@@ -33,3 +33,15 @@ Theorem C05_temp_range : forall w t, 0 <= w < 65536 -> hex_to_temp w = Ok (TNum 
 Proof. exact temp_range. Qed.
 Theorem C05_ratio_range : forall b hr r, 0 <= b < 256 -> hex_to_percent b hr = Ok (Some r) -> ratio_in_range r = true.
 Proof. exact ratio_range. Qed.
+
+(* ---- the decoders modelled in full (M_ModeCmd: parser_2349 zone mode, parser_000a zone configuration; tied to the real decoder on
+   payloads assembled from valid, sentinel and invalid fields) ---- *)
+(* whatever a W/I/RP|2349 payload of hex digits decodes to, its setpoint -- if it is a number -- is within -273.15 .. 327.67 *)
+Theorem C05_zone_mode_setpoint_in_range : forall p z t, forallb is_hex_upper p = true -> parser_2349 p = Ok z -> zm_setpoint z = TNum t -> temp_in_range t = true.
+Proof. exact zone_mode_setpoint_in_range. Qed.
+Theorem C05_zone_config_temps_in_range : forall p z, forallb is_hex_upper p = true -> parser_000a p = Ok z ->
+  (forall t, zc_min z = TNum t -> temp_in_range t = true) /\ (forall t, zc_max z = TNum t -> temp_in_range t = true).
+Proof. exact zone_config_temps_in_range. Qed.
+(* the decoded zone mode does not depend on the index byte: the zone it is filed under is the one in the frame (C05_idx_from_frame), nothing else *)
+Theorem C05_zone_mode_ignores_idx : forall x y r, List.length x = 2%nat -> List.length y = 2%nat -> parser_2349 (x ++ r) = parser_2349 (y ++ r).
+Proof. exact zone_mode_ignores_idx. Qed.
